@@ -43,6 +43,18 @@ func NewVoxelSDF3(s SDF3, meshCells int, progress chan float64) SDF3 {
 	bbSize := bb.Size()
 	resolution := bbSize.MaxComponent() / float64(meshCells)
 	cells := conv.V3ToV3i(bbSize.DivScalar(resolution))
+	// A bounding box thinner than the resolution along some axis would get 0 cells there:
+	// every lattice position and every Evaluate would divide by zero (NaN distances).
+	// Use at least one cell per axis.
+	if cells.X < 1 {
+		cells.X = 1
+	}
+	if cells.Y < 1 {
+		cells.Y = 1
+	}
+	if cells.Z < 1 {
+		cells.Z = 1
+	}
 
 	voxelCorners := map[v3i.Vec]float64{}
 	voxelCornerIndex := v3i.Vec{}
